@@ -424,3 +424,21 @@ func TestExclusionsWithDotPathCancelsObfuscationForObject(
 
 	assert.Equal(t, toJSON(input), toJSON(res))
 }
+
+func TestExclusionDoesNotExposeSameNameAtDifferentPath(t *testing.T) {
+	t.Parallel()
+	obfuscator := obfuscation.Obfuscator{
+		Hasher: obfuscation.FixedHasher{Value: obfuscatedValue},
+	}
+	input := `{"name": "top", "user": {"name": "nested"}, "items": ["a"], "box": {"items": ["b"]}}`
+	for _, excludedPaths := range [][]string{
+		{".user.name", ".box.items[]"},
+		{"$.request.body.user.name", "$.response.body.box.items[]"},
+	} {
+		res, err := obfuscator.ObfuscateJSON(input, excludedPaths)
+		assert.Nil(t, err)
+		expectedJSON := `{"name": "<obfuscated>", "user": {"name": "nested"},
+			"items": ["<obfuscated>"], "box": {"items": ["b"]}}`
+		assert.Equal(t, toJSON(expectedJSON), toJSON(res))
+	}
+}
